@@ -23,7 +23,7 @@
    No well-formedness condition on the configuration is needed for C08. *)
 From Coq Require Import List ZArith NArith Bool.
 From PC.Base Require Import Assoc.
-From PC.Sup Require Import Model Monitors Sim RelC08 SpecC08 ExC08.
+From PC.Sup Require Import Model Monitors Sim RelC08 RelC08b SpecC08 ExC08.
 Import ListNotations.
 
 (* Every history of the model that did not go through the dup or the zombie window satisfies the
@@ -48,16 +48,37 @@ Theorem C08_no_windows : forall cs ord evs s,
 Proof. exact C08_no_windows_lemma. Qed.
 Print Assumptions C08_no_windows.
 
+(* Second theorem: the zombie hypothesis can be traded for "no stop execution ever found its target
+   Pending" (no EStopPending trace point in the history; no_stop_pending is a decidable predicate on the
+   history).  This covers e.g. every RestartProcess of a RUNNING process, where the successor is
+   created while the old goroutine is still between its Completed write and inst_exit (w_zombie is set
+   there, harmlessly).  Relation: RelC08b.R8b = R8 + "an instance whose onProcessEnd was entered is
+   inside or past its own onProcessEnd" + "no thread is in the stop-of-a-Pending-process branch". *)
+Theorem C08_no_stop_pending : forall cs ord evs s,
+  accept (init cs ord) evs = Some s ->
+  w_dup (final_obs cs evs) = false -> no_stop_pending evs = true ->
+  holds_C08 cs evs = true.
+Proof. exact C08_no_stop_pending_lemma. Qed.
+Print Assumptions C08_no_stop_pending.
+
+(* both together: the strongest statement proved *)
+Theorem C08_combined : forall cs ord evs s,
+  accept (init cs ord) evs = Some s -> w_dup (final_obs cs evs) = false ->
+  w_zombie (final_obs cs evs) = false \/ no_stop_pending evs = true ->
+  holds_C08 cs evs = true.
+Proof. exact C08_combined_lemma. Qed.
+Print Assumptions C08_combined.
+
 (* declarative form: for every position of the history that is a successful launch by thread th,
    running instance i of process ni, no other instance j of process ni has a command alive there.
    lv_of pre is the view (thread -> instance, instance -> (name, command alive)) of the prefix. *)
 Theorem C08_one_live : forall cs ord evs s,
-  accept (init cs ord) evs = Some s ->
-  w_dup (final_obs cs evs) = false -> w_zombie (final_obs cs evs) = false ->
+  accept (init cs ord) evs = Some s -> w_dup (final_obs cs evs) = false ->
+  w_zombie (final_obs cs evs) = false \/ no_stop_pending evs = true ->
   forall pre th post, evs = pre ++ (th, ELaunch true) :: post ->
   forall i ni a, get th (lv_th (lv_of pre)) = Some i -> get i (lv_inst (lv_of pre)) = Some (ni, a) ->
   forall j, j <> i -> get j (lv_inst (lv_of pre)) <> Some (ni, true).
-Proof. exact C08_one_live_lemma. Qed.
+Proof. exact C08_one_live_combined_lemma. Qed.
 Print Assumptions C08_one_live.
 
 (* the monitor implies the declarative statement for ANY history (no model involved) *)
@@ -88,6 +109,15 @@ Theorem C08_zombie_only : exists cs ord evs s, accept (init cs ord) evs = Some s
   windows_of (final_obs cs evs) = [true; false; false; false; false; false; false] /\ holds_C08 cs evs = false.
 Proof. exact C08_zombie_only_lemma. Qed.
 Print Assumptions C08_zombie_only.
+
+(* non-vacuity of C08_no_stop_pending where C08_main does not apply: a RestartProcess of a running
+   process whose successor is created inside the zombie window (44 events) *)
+Example C08_nonvacuous_restart :
+  length ex_restart = 44%nat /\
+  (exists s, accept (init cs_plain false) ex_restart = Some s) /\
+  w_dup (final_obs cs_plain ex_restart) = false /\ w_zombie (final_obs cs_plain ex_restart) = true /\
+  no_stop_pending ex_restart = true /\ holds_C08 cs_plain ex_restart = true.
+Proof. exact ex_restart_ok. Qed.
 
 (* non-vacuity: a 92-event sequential history (Run; StartProcess on a running process fails; StopProcess;
    the instance ends; StartProcess launches a new instance; RestartProcess stops it, waits, launches the
